@@ -2,20 +2,31 @@
   C16 — data queries return exactly the values the path designates.
 
   Model: `View/Query.lean` (`DataQuerent` after the fixes F16a/F16b), specification: `Spec/EvalPath.lean`
-  (evaluation of a child/attribute path over the nested JSON rendering; CPython's `slice.indices`).
-  Everything below is proved for ALL node trees, flat lists, paths and subset counts (no bounds).
+  (evaluation of a child/attribute path over the nested JSON rendering; CPython's `slice.indices`; the decidable
+  predicates `shapeOK` / `ordinaryList`).  Everything below is proved for ALL node trees, flat lists, paths and
+  subset counts (no bounds).
 
   * `C16_pySlice`, `C16_pySlice_lt`, `C16_pySlice_sorted_*`, closed forms `C16_pySlice_all / _idx / _neg / _ab`:
     the model's `pySlice` is `range(*slice(a, b, c).indices(n))`.
-  * `C16_subset_selector` (+ `C16_selected_indices`): an `@` selector restricts the result of the unselected
-    query to exactly the selected subsets.
-  * `C16_compressed_eq_uncompressed_shape`, `C16_compressed_subset_eq`: on a shared tree the compressed
-    query is the uncompressed one, subset by subset.
-  * `C16_filter_for_entities_document_order`: slice application and document order of `filter_for_entities`.
-  * `C16_query_eq_eval_partial`, `C16_bare_id_is_flat_filter_partial`: first stages only; the full statements are
-    kept as comment blocks in their sections and are covered by the correspondence run, not by proof.
+  * `C16_subset_selector`: an `@` selector restricts the result of the unselected query to exactly the selected subsets.
+  * `C16_compressed_eq_uncompressed_shape`, `C16_compressed_subset_eq`, `C16_compressed_trees_shared`: on a shared
+    tree the compressed query is the uncompressed one, subset by subset.
+  * `C16_filter_for_entities_document_order`, `C16_filter_for_entities_bare`: slice application and document order
+    of `filter_for_entities`.
+  * `C16_query_eq_eval_subset`, `C16_query_eq_eval` (FULL: one subset / whole uncompressed message, exact equality
+    including the error), `C16_sub_nodes_eq_eval_at` (the induction step made public), `C16_query_eq_eval_compressed`
+    (exact, filtering succeeds), `C16_query_eq_eval_compressed_partial` (results agree; two restrictions forced by the
+    open finding F16c and the order of evaluation), `C16_eval_fails_only_with_query_error`.
+  * `C16_wire_shape`, `C16_mkMsg_shape`, `C16_wire_indices_consecutive`: the wiring pass establishes the shape
+    hypothesis; tree order = flat order for the tree every reader sees.
+  * `C16_bare_id_descent`, `C16_bare_id_is_flat_filter` (FULL), `_wired`, `C16_bare_id_returns_flat_filter` (+ `_wired`:
+    the query succeeds), `C16_bare_id_query`, `C16_bare_id_query_compressed` (whole message).
 -/
 import BufrModel.Lemmas.Query
+import BufrModel.Lemmas.QueryEval
+import BufrModel.Lemmas.QueryShape
+import BufrModel.Lemmas.QueryBare
+import BufrModel.Props.C09
 namespace Bufr
 open Bufr.Query Bufr.PathLang Bufr.C16
 
@@ -205,25 +216,21 @@ example : Spec.pickSel (.idx 1) [10, 20, 30] = [20] := by decide
 
 /-! ### query = evaluation over the nested JSON
 
-  FULL STATEMENT (not proved; checked case by case by the correspondence run: driver field `spec` against `q`
-  on every child/attribute query, ~3700 per quick run, and by the oracle on the implementation):
+  For every path of child (`/`) and attribute (`.`) steps with slices of the path language, every node tree and
+  every flat value list: filtering the tree (`processOne`) and reading the values (`valuesOf`) gives exactly what
+  `Spec.evalComps` computes on the nested JSON rendering of the tree — the same values, the same nesting, the same
+  error.  Hypotheses: the rendering succeeds (`renderNested o tree = .ok js`) and the decidable shape condition
+  `repsOKList o tree` (every replication node holds `n_repeats * n_members` members, `n_repeats` the number the
+  renderer uses) — established by the wiring pass (`C16_wire_shape`), evaluated by the driver (`shape_ok`).
+  Proof (`Lemmas/QueryEval.lean`): induction over the tree with the path universally quantified (`evalOK_all`);
+  `selectRun_eval` = one step over a list of candidates (slice, document order: `filterEnt_eq`), `rep_eval` = the
+  replication envelope (`blocks` of the model = `chunks` of the renderer under the shape condition),
+  `concat_eval` / `envelope_eval` = "collect the nodes, then read the values" against "evaluate dict by dict"
+  (equal because under these hypotheses the only possible failure is `QueryError`, `evalAt_qerr`). -/
 
-    C16_query_eq_eval (o : SubsetOut) (tree : List Node) (js : List NJ) (comps : List Comp)
-        (hr : renderNested o tree = .ok js) (hshape : repsOKList o tree = true)
-        (hp : Spec.childAttrOnly comps = true) (hs : ∀ c ∈ comps, Spec.sliceOK c.slice = true) :
-        ((processOne o.descs tree comps).bind (valuesOf o.vals)).toOption = (Spec.evalComps js comps).toOption
-
-  and, for the whole message, `query m p` against `Spec.evalPath (nested JSON per subset) (selected subsets) p.comps`.
-  Proved below: the first stage (one step from the top level, every slice of the path language), with the
-  selection expressed by the specification's own `pickSel`.  MISSING: the induction over the remaining steps (the
-  continuation of a selected node is the evaluation of the rest of the path at its rendering), the replication
-  envelope (blocks of `n_members` nodes = the lists the renderer cuts, C09_replication_chunks) and the pointwise
-  link between a node list and its rendering (equal labels, `vals[index]` = the `value` key). -/
-
-/-- first stage of `C16_query_eq_eval`: a one-step child query selects, among the top-level nodes, exactly those
-    whose label is the id, with the slice applied to that list of matches, in document order.
-    MISSING for the full statement: see the section header. -/
-theorem C16_query_eq_eval_partial (ds : List DDesc) (tree : List Node) (c : Comp) (hsep : c.sep = '/')
+/-- first step alone, without any hypothesis on the tree: a one-step child query selects, among the top-level
+    nodes, exactly those whose label is the id, the slice applied to that list of matches, in document order -/
+theorem C16_query_first_step (ds : List DDesc) (tree : List Node) (c : Comp) (hsep : c.sep = '/')
     (hs : Spec.sliceOK c.slice = true) :
     processOne ds tree [c] =
       .ok ((Spec.pickSel c.slice (tree.filter (fun n => nodeLabel ds n = some c.id))).map Hit.node) := by
@@ -232,31 +239,367 @@ theorem C16_query_eq_eval_partial (ds : List DDesc) (tree : List Node) (c : Comp
   have hne : c.sep ≠ '>' := by rw [hsep]; decide
   by_cases h : nodeLabel ds n = some c.id <;> simp [nodeMatch, h, hne]
 
+/-- a path of child and attribute steps with slices of the path language evaluated over nested JSON can only fail
+    with `QueryError` (a step on a dict without the key, a path ending on a dict without `value`) -/
+theorem C16_eval_fails_only_with_query_error (js : List NJ) (comps : List Comp) (hne : comps ≠ [])
+    (hp : Spec.childAttrOnly comps = true) (hs : ∀ c ∈ comps, Spec.sliceOK c.slice = true) (e : Err)
+    (h : Spec.evalComps js comps = .error e) : e = .query := by
+  have hP := pathOK_of comps hp hs
+  cases comps with
+  | nil => exact absurd rfl hne
+  | cons c rest =>
+    rw [evalComps_cons] at h
+    rcases hP.1 c List.mem_cons_self with h' | h'
+    · rw [if_pos h'] at h
+      exact evalSel_qerr rest c (hP.2 c List.mem_cons_self) js (evalAt_qerr rest hP.tail.1 hP.tail.2) e h
+    · rw [if_neg (sep_dot_ne_slash h'), if_pos h'] at h
+      cases h; rfl
+
+/-- the continuation of a selected node is the evaluation of the rest of the path at its rendering: for every node
+    `n` with rendering `x` (as a member, a factor or an attribute) and every non-empty path of child / attribute steps,
+    `filter_for_sub_nodes(n, path)` followed by the value pass = `Spec.evalAt path x` -/
+theorem C16_sub_nodes_eq_eval_at (o : SubsetOut) (n : Node) (x : NJ) (c : Comp) (rest : List Comp)
+    (hr : renderNode o n = .ok x ∨ renderValue o true n = .ok x) (hshape : repsOK1 o n = true)
+    (hp : Spec.childAttrOnly (c :: rest) = true) (hs : ∀ c' ∈ c :: rest, Spec.sliceOK c'.slice = true) :
+    (subNodes o.descs n c rest >>= valuesOf o.vals) = Spec.evalAt (c :: rest) x := by
+  rw [← evalOK_all o n x hr hshape c rest (pathOK_of _ hp hs)]
+  cases subNodes o.descs n c rest <;> rfl
+
+/-- ONE SUBSET, full statement: `process_one_subset` + `create_values_from_nodes` = the evaluation of the path over
+    the nested JSON rendering of the subset (values, nesting — one envelope per replication traversed, one list per
+    repetition with a result — document order, and the error when there is one) -/
+theorem C16_query_eq_eval_subset (o : SubsetOut) (tree : List Node) (js : List NJ) (comps : List Comp)
+    (hr : renderNested o tree = .ok js) (hshape : repsOKList o tree = true)
+    (hp : Spec.childAttrOnly comps = true) (hs : ∀ c ∈ comps, Spec.sliceOK c.slice = true) :
+    (processOne o.descs tree comps >>= valuesOf o.vals) = Spec.evalComps js comps := by
+  rw [← processOne_eval o tree js comps hr hshape (pathOK_of comps hp hs)]
+  cases processOne o.descs tree comps <;> rfl
+
+/-- WHOLE MESSAGE, uncompressed data, full statement: `DataQuerent.query` = `Spec.evalPath` on the nested JSON
+    rendering of the message (`Spec.nestedOf`), over the subsets the `@` selector designates — the same result or the
+    same error.  (`hc`: see `C16_query_eq_eval_compressed*` for compressed data.) -/
+theorem C16_query_eq_eval (m : QMsg) (p : Path) (nested : List (List NJ))
+    (hc : m.compressed = false) (hn : Spec.nestedOf m = .ok nested) (hshape : Spec.shapeOK m = true)
+    (hp : Spec.childAttrOnly p.comps = true) (hs : ∀ c ∈ p.comps, Spec.sliceOK c.slice = true) :
+    query m p = (match subsetIndices p.subset m.outs.length with
+      | .error e => .error e
+      | .ok sel => match Spec.evalPath nested sel p.comps with
+        | .error e => .error e
+        | .ok rs => .ok ⟨rs⟩) := by
+  unfold query
+  cases subsetIndices p.subset m.outs.length with
+  | error e => rfl
+  | ok sel =>
+    simp only [hc, Bool.false_eq_true, if_false]
+    rw [evalPath_eq, mapIdx_congr _ _ sel (fun i _ =>
+      uncompressedSubset_eval m nested p.comps hn hshape (pathOK_of _ hp hs) i)]
+    generalize mapIdx _ sel = x
+    cases x <;> rfl
+
+/-- the wiring pass establishes the shape condition of `C16_query_eq_eval*`: in every tree `TemplateData.wire`
+    builds (attachments through bitmap links included), every replication node holds `n_repeats * n_members`
+    member nodes (`C09_replication_chunks`), `n_repeats` being the number the renderer reads — whatever the flat
+    lists are -/
+theorem C16_wire_shape (t : List Desc) (o : SubsetOut) (tree : List Node) (h : wire t o = .ok tree) :
+    repsOKList o tree = true := by
+  obtain ⟨_, _, hs, _⟩ := wire_shape t o tree h
+  exact hs
+
+/-- tree order = flat order, for the tree every reader sees (`C09_wire_indices_consecutive` carried through the
+    attachment of the bitmap-linked attributes): the flat indices of the members, factors and associated fields
+    of the wired tree are `0, 1, ..., k-1`, `k` the number of indices the pass consumed -/
+theorem C16_wire_indices_consecutive (t : List Desc) (o : SubsetOut) (tree : List Node) (h : wire t o = .ok tree) :
+    ∃ w, wireRaw t o = .ok w ∧ idxList tree = List.range w.st.next := by
+  obtain ⟨w, hw, _, hi⟩ := wire_shape t o tree h
+  exact ⟨w, hw, by rw [hi]; exact C09_wire_indices_consecutive t o w hw⟩
+
+/-- uncompressed data: the message handed to `query` satisfies the shape hypothesis of `C16_query_eq_eval` -/
+theorem C16_mkMsg_shape (t : List Desc) (outs : List SubsetOut) (m : QMsg) (h : mkMsg t false outs = .ok m) :
+    Spec.shapeOK m = true := mkMsg_shape t outs m h
+
+/-- the message a decoder hands over for compressed data: every subset shares the tree wired from subset 0
+    (the hypothesis `ht` of the theorems on compressed data) -/
+theorem C16_compressed_trees_shared (t : List Desc) (outs : List SubsetOut) (m : QMsg)
+    (h : mkMsg t true outs = .ok m) :
+    m.compressed = true ∧ m.outs = outs ∧
+      (∀ o0, outs[0]? = some o0 → ∃ t0, wire t o0 = .ok t0 ∧ ∀ i, i < m.outs.length → m.trees[i]? = some t0) := by
+  unfold mkMsg wireAll at h
+  simp only [if_true] at h
+  cases outs with
+  | nil =>
+    cases h
+    exact ⟨rfl, rfl, fun o0 h0 => by simp at h0⟩
+  | cons o os =>
+    simp only at h
+    cases hw : wire t o with
+    | error e => rw [hw] at h; cases h
+    | ok ns =>
+      rw [hw] at h
+      cases h
+      refine ⟨rfl, rfl, fun o0 h0 => ?_⟩
+      simp only [List.getElem?_cons_zero, Option.some.injEq] at h0
+      subst h0
+      refine ⟨ns, hw, fun i hi => ?_⟩
+      simp only at hi ⊢
+      rw [List.getElem?_map, List.getElem?_eq_getElem hi]
+      rfl
+
+/-- compressed data, the filtering of the shared tree succeeds (`hh`): exactly the evaluation over the nested JSON,
+    subset by subset (every subset is rendered from the shared tree with its own values) -/
+theorem C16_query_eq_eval_compressed (m : QMsg) (p : Path) (nested : List (List NJ))
+    (t0 : List Node) (o0 : SubsetOut) (hits : List Hit)
+    (hc : m.compressed = true)
+    (ht : ∀ i, i < m.outs.length → m.trees[i]? = some t0) (ho : m.outs[0]? = some o0)
+    (hl : ∀ o ∈ m.outs, o.descs = o0.descs)
+    (hn : Spec.nestedOf m = .ok nested) (hshape : Spec.shapeOK m = true)
+    (hp : Spec.childAttrOnly p.comps = true) (hs : ∀ c ∈ p.comps, Spec.sliceOK c.slice = true)
+    (hh : processOne o0.descs t0 p.comps = .ok hits) :
+    query m p = (match subsetIndices p.subset m.outs.length with
+      | .error e => .error e
+      | .ok sel => match Spec.evalPath nested sel p.comps with
+        | .error e => .error e
+        | .ok rs => .ok ⟨rs⟩) := by
+  have h0 : 0 < m.outs.length := by
+    rcases Nat.lt_or_ge 0 m.outs.length with h | h
+    · exact h
+    · rw [List.getElem?_eq_none h] at ho; cases ho
+  rw [← C16_query_eq_eval { m with compressed := false } p nested rfl hn hshape hp hs]
+  unfold query
+  simp only [hc, if_true, ht 0 h0, ho, hh, Bool.false_eq_true, if_false]
+  cases subsetIndices p.subset m.outs.length with
+  | error e => rfl
+  | ok sel =>
+    simp only
+    rw [mapIdx_congr _ _ sel (fun i _ => C16_compressed_subset_eq m p.comps t0 o0 hits ht hl hh i)]
+
+/-- compressed data, the first selected subset exists (always the case without a selector and for a slice
+    selector with a non-empty selection; `@[k]` with `k` out of range is the exception): exact equality, failures
+    included — no assumption that the filtering succeeds -/
+theorem C16_query_eq_eval_compressed_selected (m : QMsg) (p : Path) (nested : List (List NJ))
+    (t0 : List Node) (o0 : SubsetOut) (i : Nat) (rest : List Nat)
+    (hc : m.compressed = true)
+    (ht : ∀ i, i < m.outs.length → m.trees[i]? = some t0) (ho : m.outs[0]? = some o0)
+    (hl : ∀ o ∈ m.outs, o.descs = o0.descs)
+    (hn : Spec.nestedOf m = .ok nested) (hshape : Spec.shapeOK m = true)
+    (hp : Spec.childAttrOnly p.comps = true) (hs : ∀ c ∈ p.comps, Spec.sliceOK c.slice = true)
+    (hsel : subsetIndices p.subset m.outs.length = .ok (i :: rest)) (hi : i < m.outs.length) :
+    query m p = (match Spec.evalPath nested (i :: rest) p.comps with
+      | .error e => .error e
+      | .ok rs => .ok ⟨rs⟩) := by
+  have h0 : 0 < m.outs.length := by omega
+  cases hh : processOne o0.descs t0 p.comps with
+  | ok hits =>
+    rw [C16_query_eq_eval_compressed m p nested t0 o0 hits hc ht ho hl hn hshape hp hs hh, hsel]
+  | error e =>
+    have hq : query m p = .error e := by
+      unfold query
+      simp only [hsel, hc, if_true, ht 0 h0, ho, hh]
+    have hsub : specSubset nested p.comps i = .error e := by
+      rw [← uncompressedSubset_eval { m with compressed := false } nested p.comps hn hshape (pathOK_of _ hp hs) i]
+      unfold uncompressedSubset
+      simp only [List.getElem?_eq_getElem hi, ht i hi, hl _ (List.getElem_mem hi), hh]
+    rw [hq, evalPath_eq]
+    simp only [mapIdx, hsub]
+
+/-- compressed data in general.  WEAKER than equality in two ways, both forced by the code as it is:
+    (1) `hne`: the selector designates at least one subset — with an empty selection `query_compressed_data` still
+    filters the shared tree and raises when the path fails on it, the evaluation over zero subsets is empty (open
+    finding F16c); (2) `toOption`: the code filters the tree BEFORE it looks up the first selected subset, so when the
+    path fails on the tree AND the first selected subset does not exist the two sides fail with different families
+    (`QueryError` / `IndexError`).  Results agree; a failure on one side is a failure on the other.
+    MISSING for the full statement: equality of the error family, and the empty selection (false at present: F16c). -/
+theorem C16_query_eq_eval_compressed_partial (m : QMsg) (p : Path) (nested : List (List NJ))
+    (t0 : List Node) (o0 : SubsetOut) (sel : List Nat)
+    (hc : m.compressed = true)
+    (ht : ∀ i, i < m.outs.length → m.trees[i]? = some t0) (ho : m.outs[0]? = some o0)
+    (hl : ∀ o ∈ m.outs, o.descs = o0.descs)
+    (hn : Spec.nestedOf m = .ok nested) (hshape : Spec.shapeOK m = true)
+    (hp : Spec.childAttrOnly p.comps = true) (hs : ∀ c ∈ p.comps, Spec.sliceOK c.slice = true)
+    (hsel : subsetIndices p.subset m.outs.length = .ok sel) (hne : sel ≠ []) :
+    (query m p).toOption = ((Spec.evalPath nested sel p.comps).toOption.map QResult.mk) := by
+  have h0 : 0 < m.outs.length := by
+    rcases Nat.lt_or_ge 0 m.outs.length with h | h
+    · exact h
+    · rw [List.getElem?_eq_none h] at ho; cases ho
+  cases hh : processOne o0.descs t0 p.comps with
+  | ok hits =>
+    rw [C16_query_eq_eval_compressed m p nested t0 o0 hits hc ht ho hl hn hshape hp hs hh, hsel]
+    simp only
+    cases Spec.evalPath nested sel p.comps <;> rfl
+  | error e =>
+    have hq : query m p = .error e := by
+      unfold query
+      simp only [hsel, hc, if_true, ht 0 h0, ho, hh]
+    rw [hq]
+    cases sel with
+    | nil => exact absurd rfl hne
+    | cons i rest =>
+      have hi : (specSubset nested p.comps i).toOption = none := by
+        rw [← uncompressedSubset_eval { m with compressed := false } nested p.comps hn hshape (pathOK_of _ hp hs) i]
+        unfold uncompressedSubset
+        simp only
+        cases hoi : m.outs[i]? with
+        | none => rfl
+        | some o =>
+          have hilt : i < m.outs.length := by
+            rcases Nat.lt_or_ge i m.outs.length with h | h
+            · exact h
+            · rw [List.getElem?_eq_none h] at hoi; cases hoi
+          simp only [ht i hilt, hl o (List.mem_of_getElem? hoi), hh]
+          rfl
+      rw [evalPath_eq]
+      simp only [mapIdx]
+      cases hr : specSubset nested p.comps i with
+      | error e' => rfl
+      | ok b => rw [hr] at hi; cases hi
+
 /-! ### the bare id
 
-  FULL STATEMENT (not proved; evaluated by the oracle `bare-id` on the implementation and by the correspondence
-  on ~1100 bare-id queries per quick run):
+  `id` alone is the descendant search `>id[:]`.  Proved for all trees (`Lemmas/QueryBare.lean`):
+  `C16_bare_id_descent` — the descent through composite nodes (`keep`; factor, then members; every repetition of a
+  replication in one list, these lists in one envelope) returns, flattened, exactly the nodes labelled with the id
+  in tree order, a matching node not being searched (`matchList`);
+  `C16_bare_id_is_flat_filter` — for an ORDINARY element (`Spec.ordinaryList`, decidable: the id labels no attribute
+  node at any depth and no valueless node) on a tree whose flat indices in tree order are `0 .. n-1`
+  (`C09_wire_indices_consecutive`: tree order = flat order) the flattened values are the values carrying the id in
+  the flat data, in flat order; `C16_bare_id_is_flat_filter_wired` discharges the index hypothesis for the trees
+  the wiring pass builds; `C16_bare_id_query*` lift it to `DataQuerent.query` (uncompressed and compressed). -/
 
-    C16_bare_id_is_flat_filter (o : SubsetOut) (tree : List Node) (id : List Char) (hits : List Hit) (vs : List QV)
-        (hidx : idxList tree = List.range o.vals.length)            -- C09_wire_consumes_each_index_once
-        (hord : OrdinaryElement o.descs tree id)                    -- the id labels no attribute node and no valueless node
-        (h : processOne o.descs tree [⟨'>', id, .range none none none⟩] = .ok hits) (hv : valuesOf o.vals hits = .ok vs) :
-        flattenQV vs = ((o.descs.zip o.vals).filter (fun p => ddChars p.1 = id)).map (·.2)
+/-- the component a bare id is parsed into -/
+theorem C16_bare_comp (id : List Char) : bare id = { sep := '>', id := id, slice := .range none none none } := rfl
 
-  Proved below: the stage without composite nodes (a tree of plain value nodes, no attributes, no replication or
-  sequence): the bare id returns the nodes labelled with the id in tree order.  MISSING: the descent through
-  composite nodes (the `keep` classification, `descStep`: factor, then members; one envelope per replication whose
-  flattening is the concatenation of the repetitions) and the appeal to C09 for "tree order = flat order". -/
+/-- `filter_for_entities` for the bare id: every matching node and every composite node, in document order -/
+theorem C16_filter_for_entities_bare {α : Type} (id : List Char) (cls : α → Match) (xs : List α) :
+    filterEnt (bare id) cls xs = .ok (xs.filter (fun x => decide (cls x ≠ .no))) :=
+  filterEnt_all (bare id) rfl cls xs
 
-/-- first stage of `C16_bare_id_is_flat_filter`: on a tree without composite nodes the bare id selects the nodes
-    carrying the id, all of them (`[:]`), in tree order.  MISSING: see the section header. -/
-theorem C16_bare_id_is_flat_filter_partial (ds : List DDesc) (tree : List Node) (id : List Char)
-    (hflat : ∀ n ∈ tree, composite n = false) :
-    processOne ds tree [{ sep := '>', id := id, slice := .range none none none }] =
-      .ok ((Spec.pickSel (.range none none none) (tree.filter (fun n => nodeLabel ds n = some id))).map Hit.node) := by
-  apply processOne_last ds tree _ (show ('>' : Char) ≠ '.' by decide) _ (show Spec.sliceOK (.range none none none) = true by decide)
-  intro n hn
-  by_cases h : nodeLabel ds n = some id <;> simp [nodeMatch, h, hflat n hn]
+/-- the descent: whatever the tree, a successful bare-id search returns (flattened) the nodes carrying the id, in
+    tree order: factor / attributes of a node before its members, repetition after repetition -/
+theorem C16_bare_id_descent (ds : List DDesc) (tree : List Node) (id : List Char) (hits : List Hit)
+    (h : processOne ds tree [bare id] = .ok hits) : hitNodes hits = matchList ds id tree :=
+  processOne_bare ds id tree hits h
+
+/-- flattening the nested values = reading the values of the flattened node list -/
+theorem C16_values_flatten (vals : List Val) (hits : List Hit) (vs : List QV) (h : valuesOf vals hits = .ok vs) :
+    (flattenQV vs).map some = (hitNodes hits).map (nodeVal vals) :=
+  valuesOf_flatten vals hits vs h
+
+/-- ONE SUBSET, full statement: the bare id of an ordinary element returns, flattened, every value carrying the id
+    in the flat data, in flat order -/
+theorem C16_bare_id_is_flat_filter (o : SubsetOut) (tree : List Node) (id : List Char) (hits : List Hit) (vs : List QV)
+    (hidx : idxList tree = List.range o.vals.length)
+    (hord : Spec.ordinaryList o.descs id tree = true)
+    (h : processOne o.descs tree [{ sep := '>', id := id, slice := .range none none none }] = .ok hits)
+    (hv : valuesOf o.vals hits = .ok vs) :
+    flattenQV vs = ((o.descs.zip o.vals).filter (fun p => ddChars p.1 = id)).map (·.2) :=
+  bare_flat o tree id hits vs hidx hord h hv
+
+/-- the same for the tree the wiring pass builds, when the pass consumed the whole flat list (`hn`, the side
+    condition of C09 — decidable, evaluated by the driver as part of `side_ok`): `hidx` is a theorem -/
+theorem C16_bare_id_is_flat_filter_wired (t : List Desc) (o : SubsetOut) (w : Wired) (tree : List Node) (id : List Char)
+    (hits : List Hit) (vs : List QV)
+    (hw : wireRaw t o = .ok w) (hn : w.st.next = o.vals.length) (ht : w.tree = .ok tree)
+    (hord : Spec.ordinaryList o.descs id tree = true)
+    (h : processOne o.descs tree [bare id] = .ok hits) (hv : valuesOf o.vals hits = .ok vs) :
+    flattenQV vs = Spec.flatFilter o id := by
+  have hwire : wire t o = .ok tree := by unfold wire; rw [hw]; exact ht
+  obtain ⟨w', hw', hi⟩ := C16_wire_indices_consecutive t o tree hwire
+  rw [hw] at hw'
+  cases hw'
+  exact bare_flat o tree id hits vs (by rw [hi, hn]) hord h hv
+
+/-- "returns": on a well-shaped tree (`repsOKList`) the bare-id query of an ordinary element does not fail — neither
+    the search nor the value pass — and its flattened result is the flat filter -/
+theorem C16_bare_id_returns_flat_filter (o : SubsetOut) (tree : List Node) (id : List Char)
+    (hidx : idxList tree = List.range o.vals.length) (hord : Spec.ordinaryList o.descs id tree = true)
+    (hshape : repsOKList o tree = true) :
+    ∃ hits vs, processOne o.descs tree [bare id] = .ok hits ∧ valuesOf o.vals hits = .ok vs ∧
+      flattenQV vs = Spec.flatFilter o id :=
+  bare_flat_total o tree id hidx hord hshape
+
+/-- for the tree the wiring pass builds, the only hypotheses left are: the pass consumed the whole flat list, and
+    the element is ordinary (both decidable) -/
+theorem C16_bare_id_returns_flat_filter_wired (t : List Desc) (o : SubsetOut) (w : Wired) (tree : List Node)
+    (id : List Char) (hw : wireRaw t o = .ok w) (hn : w.st.next = o.vals.length) (ht : w.tree = .ok tree)
+    (hord : Spec.ordinaryList o.descs id tree = true) :
+    ∃ hits vs, processOne o.descs tree [bare id] = .ok hits ∧ valuesOf o.vals hits = .ok vs ∧
+      flattenQV vs = Spec.flatFilter o id := by
+  have hwire : wire t o = .ok tree := by unfold wire; rw [hw]; exact ht
+  obtain ⟨w', hw', hi⟩ := C16_wire_indices_consecutive t o tree hwire
+  rw [hw] at hw'
+  cases hw'
+  exact bare_flat_total o tree id (by rw [hi, hn]) hord (C16_wire_shape t o tree hwire)
+
+/-- WHOLE MESSAGE, uncompressed data: every subset of the result of a bare-id query holds, flattened, the values
+    carrying the id in the flat data of that subset, in order (with or without an `@` selector) -/
+theorem C16_bare_id_query (m : QMsg) (sel : Option Slice) (id : List Char) (r : QResult)
+    (hc : m.compressed = false)
+    (hyp : ∀ (i : Nat) (o : SubsetOut) (t : List Node), m.outs[i]? = some o → m.trees[i]? = some t →
+      idxList t = List.range o.vals.length ∧ Spec.ordinaryList o.descs id t = true)
+    (h : query m { subset := sel, comps := [bare id] } = .ok r) :
+    ∀ q ∈ r.subsets, ∃ o, m.outs[q.1]? = some o ∧ flattenQV q.2 = Spec.flatFilter o id := by
+  unfold query at h
+  split at h
+  · cases h
+  · next idxs _ =>
+    simp only [hc, Bool.false_eq_true, if_false] at h
+    split at h
+    · cases h
+    · next rs hrs =>
+      cases h
+      intro q hq
+      obtain ⟨i, _, hi⟩ := mapIdx_mem _ idxs rs hrs q hq
+      unfold uncompressedSubset at hi
+      split at hi
+      · cases hi
+      · next o ho =>
+        split at hi
+        · cases hi
+        · next t ht =>
+          split at hi
+          · cases hi
+          · next hits hh =>
+            split at hi
+            · cases hi
+            · next vs hv =>
+              cases hi
+              obtain ⟨h1, h2⟩ := hyp i o t ho ht
+              exact ⟨o, ho, bare_flat o t id hits vs h1 h2 hh hv⟩
+
+/-- WHOLE MESSAGE, compressed data (one tree `t0`, equal labels): the same, the values being those of each subset -/
+theorem C16_bare_id_query_compressed (m : QMsg) (sel : Option Slice) (id : List Char) (r : QResult)
+    (t0 : List Node) (o0 : SubsetOut)
+    (hc : m.compressed = true) (ht : m.trees[0]? = some t0) (ho : m.outs[0]? = some o0)
+    (hl : ∀ o ∈ m.outs, o.descs = o0.descs)
+    (hyp : ∀ o ∈ m.outs, idxList t0 = List.range o.vals.length ∧ Spec.ordinaryList o.descs id t0 = true)
+    (h : query m { subset := sel, comps := [bare id] } = .ok r) :
+    ∀ q ∈ r.subsets, ∃ o, m.outs[q.1]? = some o ∧ flattenQV q.2 = Spec.flatFilter o id := by
+  unfold query at h
+  split at h
+  · cases h
+  · next idxs _ =>
+    simp only [hc, if_true, ht, ho] at h
+    split at h
+    · cases h
+    · next hits hh =>
+      split at h
+      · cases h
+      · next rs hrs =>
+        cases h
+        intro q hq
+        obtain ⟨i, _, hi⟩ := mapIdx_mem _ idxs rs hrs q hq
+        unfold compressedSubset at hi
+        split at hi
+        · cases hi
+        · next o hoi =>
+          split at hi
+          · cases hi
+          · next vs hv =>
+            cases hi
+            have hmem := List.mem_of_getElem? hoi
+            obtain ⟨h1, h2⟩ := hyp o hmem
+            refine ⟨o, hoi, bare_flat o t0 id hits vs h1 h2 ?_ hv⟩
+            rw [hl o hmem]; exact hh
 
 /-! ### non-vacuity: a wired tree with a delayed replication (counts 2 and 0) and associated-field attributes -/
 
@@ -318,6 +661,129 @@ example : beqRes (run none [c '>' "012001" (.range none none (some (-1)))])
 /-- the hypothesis of `C16_subset_selector` holds here (the unselected query succeeds) and the selector picks subset 1 -/
 example : (run none [c '/' "101000" all, c '.' "031001" (.idx 0)]).toOption.isSome = true := by decide +kernel
 example : subsetIndices (some (.range (some (-1)) none none)) 2 = .ok [1] := by decide
+
+/-! non-vacuity of `C16_query_eq_eval*`: the hypotheses hold on the example message (rendering succeeds, shape
+    condition true, path of child / attribute steps), and both sides of the conclusion evaluate to the expected lists -/
+
+def p3 : List Comp := [c '/' "101000" all, c '/' "012001" (.range none none (some (-1))), c '.' "A12001" (.idx 0)]
+
+def isErr {α : Type} (e : Err) : CM α → Bool
+  | .error e' => e' == e
+  | .ok _ => false
+
+def beqSubs (r : CM (List (Nat × List QV))) (want : List (Nat × List QV)) : Bool :=
+  match r with
+  | .ok q => q.map (·.1) == want.map (·.1) && beqQVs (q.map fun p => QV.list p.2) (want.map fun p => QV.list p.2)
+  | .error _ => false
+
+example : (match msg with
+    | .ok m => !m.compressed && (Spec.nestedOf m).toOption.isSome && Spec.shapeOK m
+    | .error _ => false) = true := by decide +kernel
+example : Spec.childAttrOnly p3 = true ∧ ∀ c' ∈ p3, Spec.sliceOK c'.slice = true := by decide
+example : (match msg with
+    | .ok m => (match Spec.nestedOf m with
+      | .ok nj => beqSubs (Spec.evalPath nj [0, 1] p3) [(0, [.list [.list [.val (.int 5)], .list [.val (.int 6)]]]), (1, [])]
+      | .error _ => false)
+    | .error _ => false) = true := by decide +kernel
+example : beqRes (run none p3) [(0, [.list [.list [.val (.int 5)], .list [.val (.int 6)]]]), (1, [])] = true := by
+  decide +kernel
+/-- a failing path fails on both sides with `QueryError` (`/001001/012001`: a value node has no child nodes) -/
+example : isErr .query (run none [c '/' "001001" all, c '/' "012001" all]) = true := by decide +kernel
+example : (match msg with
+    | .ok m => (match Spec.nestedOf m with
+      | .ok nj => isErr .query (Spec.evalPath nj [0, 1] [c '/' "001001" all, c '/' "012001" all])
+      | .error _ => false)
+    | .error _ => false) = true := by decide +kernel
+/-- `C16_sub_nodes_eq_eval_at` / `C16_query_eq_eval_subset` on the first subset: tree, rendering, shape -/
+example : (match wire T O1 with
+    | .ok tree => (renderNested O1 tree).toOption.isSome && repsOKList O1 tree
+    | .error _ => false) = true := by decide +kernel
+example : (match wire T O1 with
+    | .ok tree => (match renderNested O1 tree with
+      | .ok js => beqQVs ((Spec.evalComps js p3).toOption.getD []) [.list [.list [.val (.int 5)], .list [.val (.int 6)]]]
+      | .error _ => false)
+    | .error _ => false) = true := by decide +kernel
+
+/-- `C16_wire_shape`, `C16_wire_indices_consecutive`, `C16_mkMsg_shape`: the wiring succeeds here (7 indices) -/
+example : ((wire T O1).toOption.map idxList) = some [0, 1, 2, 3, 4, 5, 6] := by decide +kernel
+example : (msg).toOption.isSome = true := by decide +kernel
+
+/-! non-vacuity of the bare-id theorems: `012001` (in a delayed replication, each value under an associated field
+    whose attribute is the 031021 meaning) and the replication factor `031001` are ordinary, `031021` is not (it
+    also labels the meaning attribute); indices consecutive; the query succeeds and returns the flat values -/
+def beqVals (a b : List Val) : Bool := a == b
+
+example : (match wire T O1 with
+    | .ok tree => Spec.ordinaryList O1.descs "012001".toList tree && Spec.ordinaryList O1.descs "031001".toList tree &&
+        !Spec.ordinaryList O1.descs "031021".toList tree && decide (idxList tree = List.range O1.vals.length)
+    | .error _ => false) = true := by decide +kernel
+example : (match wire T O1 with
+    | .ok tree => (match processOne O1.descs tree [bare "012001".toList] with
+      | .ok hits => (match valuesOf O1.vals hits with
+        | .ok vs => beqVals (flattenQV vs) [.int 280, .int 281] &&
+            beqQVs vs [.list [.list [.val (.int 280)], .list [.val (.int 281)]]] &&
+            decide ((hitNodes hits).length = 2)
+        | .error _ => false)
+      | .error _ => false)
+    | .error _ => false) = true := by decide +kernel
+example : Spec.flatFilter O1 "012001".toList = [.int 280, .int 281] := by decide +kernel
+example : Spec.flatFilter O1 "031001".toList = [.int 2] := by decide +kernel
+/-- the hypotheses of `C16_bare_id_is_flat_filter_wired` (the pass consumes all 7 values) -/
+example : ((wireRaw T O1).toOption.map fun w => decide (w.st.next = O1.vals.length) && w.tree.toOption.isSome) = some true := by
+  decide +kernel
+/-- `C16_bare_id_query`: in every subset of the example message the indices are consecutive and `012001` is ordinary -/
+example : (match msg with
+    | .ok m => (m.outs.zip m.trees).all fun p =>
+        decide (idxList p.2 = List.range p.1.vals.length) && Spec.ordinaryList p.1.descs "012001".toList p.2
+    | .error _ => false) = true := by decide +kernel
+/-- `C16_query_first_step` -/
+example : (match wire T O1 with
+    | .ok tree => (match processOne O1.descs tree [c '/' "001001" all] with
+      | .ok hits => decide (hits.length = 1)
+      | .error _ => false)
+    | .error _ => false) = true := by decide +kernel
+/-- whole message: the bare id over both subsets (2 values, none), and over the compressed message -/
+example : (match run none [bare "012001".toList] with
+    | .ok r => r.allValuesFlat == [[.int 280, .int 281], []]
+    | .error _ => false) = true := by decide +kernel
+example : filterEnt (bare "x".toList) (fun (n : Nat) => if n = 0 then Match.no else if n = 1 then .hit else .keep) [2, 0, 1, 1, 0, 3]
+    = (.ok [2, 1, 1, 3] : CM (List Nat)) := by decide +kernel
+
+/-- compressed data: two subsets with the same labels and the same replication count sharing one tree -/
+def O1b : SubsetOut := { O1 with vals := [.int 1, .int 2, .int 7, .int 290, .int 8, .int 291, .int 97] }
+def cmsg : CM QMsg := mkMsg T true [O1, O1b]
+
+example : (match cmsg with
+    | .ok m => m.compressed && (Spec.nestedOf m).toOption.isSome && Spec.shapeOK m &&
+        (m.outs.all fun o => o.descs == O1.descs) &&
+        (match m.trees[0]? with
+         | some t0 => (processOne O1.descs t0 p3).toOption.isSome
+         | none => false)
+    | .error _ => false) = true := by decide +kernel
+example : (match cmsg with
+    | .ok m => beqRes (query m { subset := none, comps := p3 })
+        [(0, [.list [.list [.val (.int 5)], .list [.val (.int 6)]]]), (1, [.list [.list [.val (.int 7)], .list [.val (.int 8)]]])]
+    | .error _ => false) = true := by decide +kernel
+example : (cmsg).toOption.isSome = true := by decide +kernel     -- hypothesis of `C16_compressed_trees_shared`
+/-- `C16_query_eq_eval_compressed_selected`: without a selector the first selected subset is subset 0 -/
+example : subsetIndices none 2 = .ok (0 :: [1]) := by decide
+/-- the hypothesis `sel ≠ []` of `C16_query_eq_eval_compressed_partial`; and the reason for it (F16c): an empty
+    selection with a failing path raises on compressed data, the evaluation over no subset is empty -/
+example : subsetIndices (some (.range (some 1) none none)) 2 = .ok [1] := by decide
+example : (match cmsg with
+    | .ok m => isErr .query (query m { subset := some (.range (some 7) none none), comps := [c '/' "001001" all, c '/' "012001" all] })
+    | .error _ => false) = true := by decide +kernel
+example : Spec.evalPath [] [] [c '/' "001001" all, c '/' "012001" all] = .ok [] := rfl
+/-- `C16_bare_id_query_compressed` on the compressed message: hypotheses, result -/
+example : (match cmsg with
+    | .ok m => (m.outs.zip m.trees).all fun p =>
+        decide (idxList p.2 = List.range p.1.vals.length) && Spec.ordinaryList p.1.descs "012001".toList p.2
+    | .error _ => false) = true := by decide +kernel
+example : (match cmsg with
+    | .ok m => (match query m { subset := none, comps := [bare "012001".toList] } with
+      | .ok r => r.allValuesFlat == [[.int 280, .int 281], [.int 290, .int 291]]
+      | .error _ => false)
+    | .error _ => false) = true := by decide +kernel
 end C16ex
 
 
